@@ -269,6 +269,12 @@ func realCatalogue(c *Ctx, rr int) {
 		add(J{"kind": "cmp/sign", "cfg": 1, "msg": 2}, func(s []byte) protocol.StartFunc { return cmp.Sign(cmpCfg[me], signers, msg2, nil) }, sid)
 		add(J{"kind": "cmp/sign", "cfg": 2, "msg": 1}, func(s []byte) protocol.StartFunc { return cmp.Sign(cmpCfg2[me], signers, msg1, nil) }, sid)
 		add(J{"kind": "cmp/sign", "cfg": 1, "msg": 1, "signers": "all"}, func(s []byte) protocol.StartFunc { return cmp.Sign(cmpCfg[me], ids, msg1, nil) }, sid)
+		// the same key material except for the ECDSA shares: a BIP-32 child of config 1
+		if child, err := cmpCfg[me].DeriveBIP32(7); err == nil {
+			add(J{"kind": "cmp/sign", "cfg": "1/child-7", "msg": 1}, func(s []byte) protocol.StartFunc { return cmp.Sign(child, signers, msg1, nil) }, sid)
+			add(J{"kind": "cmp/refresh", "cfg": "1/child-7"}, func(s []byte) protocol.StartFunc { return cmp.Refresh(child, nil) }, sid)
+			add(J{"kind": "cmp/presign", "cfg": "1/child-7"}, func(s []byte) protocol.StartFunc { return cmp.Presign(child, signers, nil) }, sid)
+		}
 		add(J{"kind": "cmp/presign", "cfg": 1}, func(s []byte) protocol.StartFunc { return cmp.Presign(cmpCfg[me], signers, nil) }, sid)
 		add(J{"kind": "cmp/presign", "cfg": 2}, func(s []byte) protocol.StartFunc { return cmp.Presign(cmpCfg2[me], signers, nil) }, sid)
 		if frostCfg[me] != nil {
